@@ -1,7 +1,7 @@
 SPECIFICATION Spec
 CONSTANTS
-  Lits <- LitsThorough
-  Ops = {"+", "*", "-", "<<"}
+  Lits <- Lits2
+  Ops = {"+", "*", "-"}
   Forms = {"lit", "ref", "neg", "rl", "lr", "rr"}
   Kinds = {"enumE", "enumI", "const", "constexpr", "macroP", "macroB", "array"}
   MaxDecls = 3
